@@ -519,6 +519,9 @@ def cases_big(tier, shard, nshards):
     for a in BIG_ALGS:
         for n in sizes:
             out.append({"alg": a, "n": n})
+    # the same length handed over in ONE call (update() or new(data=...)): per-call block counts >= 2^23
+    for a in (["SHA224", "SHA256", "SHA512", "SHA1", "MD5"] if tier == "quick" else [x for x in BIG_ALGS if not x.startswith("HMAC")]):
+        out.append({"alg": a, "n": (1 << 29) + 3, "single": "update" if len(out) % 2 else "new"})
     # KangarooTwelve: more than 255 leaves: length_encode(n-1) grows by one byte (65536 leaves = 512 MiB is beyond the pure-Python reference)
     out.append({"alg": "KangarooTwelve", "n": 257 * 8192 + 5})
     out.append({"alg": "KangarooTwelve", "n": 256 * 8192})
@@ -558,21 +561,30 @@ def run_big(case, rec):
             ref = hashlib.new(oracles.HASHES[a][3] or a.lower())
         except ValueError:
             raise Skip()        # no fast second implementation of this algorithm in the sandbox
-    left = n
-    while left:
-        m = chunk if left >= len(chunk) else chunk[:left]
-        lib.update(m)
-        ref.update(m)
-        left -= len(m)
+    if case.get("single"):
+        buf = bytes(n)
+        if case["single"] == "new" and a in oracles.HASHES:
+            lib = oracles.lib_hash_new(a, buf)
+        else:
+            lib.update(buf)
+        ref.update(buf)
+        del buf
+    else:
+        left = n
+        while left:
+            m = chunk if left >= len(chunk) else chunk[:left]
+            lib.update(m)
+            ref.update(m)
+            left -= len(m)
     if a == "SHAKE128":
         got, exp = bytes(lib.read(32)), ref.digest(32)
     else:
         got, exp = bytes(lib.digest()), ref.digest()
     if got != exp:
         raise Violation("bigmsg/%s/wrong-digest" % a, "digest of a %d-byte message (%d bits) differs from the second implementation" % (n, 8 * n), n=n)
-    rec.nt(a, n)
-    rec.event("bigmsg:" + a)
-    rec.sample({"alg": a, "bytes": n, "bits_over_2^32": 8 * n - (1 << 32)})
+    rec.nt(a, n, case.get("single"))
+    rec.event("bigmsg:" + a + (":single-call" if case.get("single") else ""))
+    rec.sample({"alg": a, "bytes": n, "bits_over_2^32": 8 * n - (1 << 32), "single_call": case.get("single")})
 
 
 CHECKS = [
